@@ -393,6 +393,56 @@ theorem jetscape_ctor_duplicated_line (F : JFile) (pt : Bool) (hF : F.wf pt = tr
     jetscapeCtor ⟨dupLine F.lines (F.partPos k p), nl⟩ pt = .error .index :=
   jetscapeCtor_of_error _ _ _ (jetscape_duplicated_line F pt hF k p b x hb hx nl)
 
+/-! ## Opening with a keep-everything constructor filter (`filters={}`, `{'charged_particles': False}`, …)
+
+With `filters=` the loaders rewrite the count row of every event they close and nothing else; the damage is detected
+all the same.  (`readOscar_id_sim` / `readJetscape_id_sim`: whatever loads with such a filter loads without it, with the
+same events and `num_events` — so the truncation theorems bound what can be returned with it as well.) -/
+
+theorem oscar_deleted_line_filters (F : OFile) (fmt : Fmt) (attrs : List String) (hF : F.wf fmt attrs = true)
+    (k p : Nat) (b : Block) (x : LineF) (hb : F.evs[k]? = some b) (hx : b.parts[p]? = some x) (nl : Bool) :
+    ∃ e, readOscar ⟨deleteLine F.lines (F.partPos k p), nl⟩ .all (some idFilter) = .error e := by
+  obtain ⟨ho, _, _⟩ := wf_facts hF
+  have H := Pre_of_obs_all ho
+  obtain ⟨A, B, hl, hA, hdel, _⟩ := lines_split F k p b x hb hx
+  refine readOscar_id_error _ F.h1 fmt attrs ?_ H.hfmt H.hmod _ (oscar_deleted_line F fmt attrs hF k p b x hb hx nl)
+  show (deleteLine F.lines (F.partPos k p)).head? = some F.h1
+  rw [hl, ← hA, eraseIdx_at, hdel]; rfl
+
+theorem oscar_duplicated_line_filters (F : OFile) (fmt : Fmt) (attrs : List String) (hF : F.wf fmt attrs = true)
+    (k p : Nat) (b : Block) (x : LineF) (hb : F.evs[k]? = some b) (hx : b.parts[p]? = some x) (nl : Bool) :
+    ∃ e, readOscar ⟨dupLine F.lines (F.partPos k p), nl⟩ .all (some idFilter) = .error e := by
+  obtain ⟨ho, _, _⟩ := wf_facts hF
+  have H := Pre_of_obs_all ho
+  obtain ⟨A, B, hl, hA, _, hdup⟩ := lines_split F k p b x hb hx
+  refine readOscar_id_error _ F.h1 fmt attrs ?_ H.hfmt H.hmod _ (oscar_duplicated_line F fmt attrs hF k p b x hb hx nl)
+  show (dupLine F.lines (F.partPos k p)).head? = some F.h1
+  rw [hl, ← hA, dupLine_at, hdup]; rfl
+
+theorem jetscape_deleted_line_filters (F : JFile) (pt : Bool) (hF : F.wf pt = true)
+    (k p : Nat) (b : JBlock) (x : LineF) (hb : F.evs[k]? = some b) (hx : b.parts[p]? = some x) (nl : Bool) :
+    ∃ e, readJetscape ⟨deleteLine F.lines (F.partPos k p), nl⟩ .all pt (some idFilter) = .error e :=
+  readJetscape_id_error _ pt _ (jetscape_deleted_line F pt hF k p b x hb hx nl)
+
+theorem jetscape_duplicated_line_filters (F : JFile) (pt : Bool) (hF : F.wf pt = true)
+    (k p : Nat) (b : JBlock) (x : LineF) (hb : F.evs[k]? = some b) (hx : b.parts[p]? = some x) (nl : Bool) :
+    ∃ e, readJetscape ⟨dupLine F.lines (F.partPos k p), nl⟩ .all pt (some idFilter) = .error e :=
+  readJetscape_id_error _ pt _ (jetscape_duplicated_line F pt hF k p b x hb hx nl)
+
+/-- a keep-everything filter never turns a rejected JETSCAPE file into an accepted one, and what it accepts are the
+same events (any file, damaged or not) -/
+theorem jetscape_filters_accept_no_more (f : FileF) (pt : Bool) (L : Loaded)
+    (h : readJetscape f .all pt (some idFilter) = .ok L) :
+    ∃ L', readJetscape f .all pt none = .ok L' ∧ L'.events = L.events ∧ L'.numEvents = L.numEvents :=
+  readJetscape_id_sim f pt L h
+
+/-- the same for Oscar files of a modelled format -/
+theorem oscar_filters_accept_no_more (f : FileF) (first : LineF) (fmt : Fmt) (attrs : List String)
+    (h1 : f.lines.head? = some first) (h2 : oscarFormat first = .ok (fmt, attrs)) (h3 : fmtModelled fmt = true)
+    (L : Loaded) (h : readOscar f .all (some idFilter) = .ok L) :
+    ∃ L', readOscar f .all none = .ok L' ∧ L'.events = L.events ∧ L'.numEvents = L.numEvents :=
+  readOscar_id_sim f first fmt attrs h1 h2 h3 L h
+
 /-! ## "Counts that match", spelled out -/
 
 /-- whatever `agrees`: one row per returned event, the count being the length of its list, `num_events` their number -/
